@@ -210,6 +210,8 @@ pub trait SubCheck: Send + Sync {
     /// Derive one case from raw bytes (proptest's pass-through RNG) and run it: the entry point of the
     /// libFuzzer targets.  None = the bytes gave no case or the case passed.
     fn run_from_bytes(&self, data: &[u8]) -> Option<(Failure, serde_json::Value)>;
+    /// Write `count` cases drawn from the (quick-tier) strategy to `dir`, encoded for `run_from_bytes`.
+    fn seed_corpus(&self, dir: &Path, count: usize, seed: u64) -> usize;
     fn campaign(&self, ctx: &Ctx, known_open: &HashSet<String>) -> SubReport;
     fn replay(&self, case: &serde_json::Value) -> Result<Outcome, String>;
 }
@@ -225,6 +227,25 @@ pub struct Sub<C> {
     /// run the campaign in a child process so that a hard crash (allocation failure, abort,
     /// stack overflow) can be attributed to a case instead of killing the check
     pub isolate: bool,
+    /// Fuzz entry only: bring a case decoded from arbitrary bytes into the domain of the strategy
+    /// (clamp numeric fields, cap lengths); returning false discards the input.  None = every value
+    /// of the case type is a legal case.
+    pub domain: Option<fn(&mut C) -> bool>,
+}
+
+/// like `sub`, with a domain function for the libFuzzer entry point (see `Sub::domain`)
+pub fn sub_fuzz<C>(
+    name: &'static str,
+    quick: u32,
+    thorough: u32,
+    strategy: fn(Tier) -> BoxedStrategy<C>,
+    run: fn(&C) -> Outcome,
+    domain: fn(&mut C) -> bool,
+) -> Box<dyn SubCheck>
+where
+    C: Debug + Clone + Serialize + DeserializeOwned + Send + Sync + 'static,
+{
+    Box::new(Sub { name, quick, thorough, strategy, run, isolate: false, domain: Some(domain) })
 }
 
 /// like `sub`, but crash-isolated (see `Sub::isolate`)
@@ -238,7 +259,7 @@ pub fn sub_isolated<C>(
 where
     C: Debug + Clone + Serialize + DeserializeOwned + Send + Sync + 'static,
 {
-    Box::new(Sub { name, quick, thorough, strategy, run, isolate: true })
+    Box::new(Sub { name, quick, thorough, strategy, run, isolate: true, domain: None })
 }
 
 pub fn sub<C>(
@@ -258,6 +279,7 @@ where
         strategy,
         run,
         isolate: false,
+        domain: None,
     })
 }
 
@@ -324,28 +346,50 @@ where
     }
 
     fn run_from_bytes(&self, data: &[u8]) -> Option<(Failure, serde_json::Value)> {
-        use proptest::strategy::{Strategy, ValueTree};
-        use proptest::test_runner::{RngAlgorithm, TestRng};
-        // the pass-through RNG returns zeros once the input is used up, on which rand's rejection
-        // sampling can spin forever: append a pseudo-random tail derived from the input
-        let mut buf = data.to_vec();
-        let mut x: u64 = data.iter().fold(0xcbf29ce484222325u64, |h, &b| (h ^ b as u64).wrapping_mul(0x100000001b3)) | 1;
-        while buf.len() < data.len() + (256 << 10) {
-            x ^= x << 13;
-            x ^= x >> 7;
-            x ^= x << 17;
-            buf.extend_from_slice(&x.to_le_bytes());
+        // total structural decoding (see fuzzde.rs), then the sub-check's domain function
+        let mut case: C = crate::fuzzde::decode(data).ok()?;
+        if let Some(dom) = self.domain {
+            if !dom(&mut case) {
+                return None;
+            }
         }
-        let rng = TestRng::from_seed(RngAlgorithm::PassThrough, &buf);
-        let mut cfg = Config::default();
-        cfg.failure_persistence = None;
-        let mut runner = TestRunner::new_with_rng(cfg, rng);
-        let tree = (self.strategy)(Tier::Quick).new_tree(&mut runner).ok()?;
-        let case = tree.current();
         match run_case_strict(self.run, &case) {
             Ok(_) => None,
             Err(f) => Some((f, serde_json::to_value(&case).unwrap_or(serde_json::Value::Null))),
         }
+    }
+
+    fn seed_corpus(&self, dir: &Path, count: usize, seed: u64) -> usize {
+        use proptest::strategy::{Strategy, ValueTree};
+        let mut cfg = Config::default();
+        cfg.failure_persistence = None;
+        cfg.rng_seed = RngSeed::Fixed(mix(seed, self.name, 0xF0));
+        let mut runner = TestRunner::new(cfg);
+        let strat = (self.strategy)(Tier::Quick);
+        let _ = std::fs::create_dir_all(dir);
+        let mut written = 0;
+        for i in 0..count * 4 {
+            if written >= count {
+                break;
+            }
+            let Ok(tree) = strat.new_tree(&mut runner) else { continue };
+            let case = tree.current();
+            let Ok(bytes) = crate::fuzzde::encode(&case) else { continue };
+            // only cases the decoder gives back unchanged and the domain function accepts
+            let Ok(mut back) = crate::fuzzde::decode::<C>(&bytes) else { continue };
+            if let Some(dom) = self.domain {
+                if !dom(&mut back) {
+                    continue;
+                }
+            }
+            if fingerprint(&back).0 != fingerprint(&case).0 {
+                continue;
+            }
+            if std::fs::write(dir.join(format!("seed-{}-{i:03}", self.name.replace('/', "_"))), &bytes).is_ok() {
+                written += 1;
+            }
+        }
+        written
     }
 
     fn replay(&self, case: &serde_json::Value) -> Result<Outcome, String> {
